@@ -40,7 +40,7 @@ type c02Block struct {
 }
 
 func runC02(c *fw.Case) {
-	mc := gen.Minters(c.R, "uc4e", 36)
+	mc := gen.Minters(c.R, gen.MintDenom(c.R), 36)
 	horizon := mc.Horizon(c.R)
 	bounds := mc.Schedule.Boundaries(horizon, 40)
 	c.Describe(strings.Join(mc.Desc, ""), mc.Describe())
